@@ -113,7 +113,7 @@ func (fx *FX) callFunction(fr *frame, st *State, callee *ssa.Function, args []Va
 		return rs
 	}
 	if c := e.CS.ByName[name]; c != nil && !(c.Opts["inline"] == "true") {
-		return fx.applyContract(fr, st, c, name, callee, callee.Signature, args, pos, nil)
+		return fx.applyContract(fr, st, c, name, callee, callee.Signature, args, pos, nil, bindings...)
 	}
 	if e.isRepoFn(callee) && len(callee.Blocks) > 0 {
 		for _, f := range fx.inlineStack {
@@ -240,7 +240,17 @@ func (fx *FX) contractNames(c *Contract, callee *ssa.Function, sig *types.Signat
 }
 
 // applyContract: check the callee's preconditions, havoc its frame, assume its postconditions.
-func (fx *FX) applyContract(fr *frame, st *State, c *Contract, name string, callee *ssa.Function, sig *types.Signature, args []Val, pos token.Pos, fnv *Val) []Val {
+func (fx *FX) applyContract(fr *frame, st *State, c *Contract, name string, callee *ssa.Function, sig *types.Signature, args []Val, pos token.Pos, fnv *Val, bindings ...Val) []Val {
+	freeCells := map[string]Val{}
+	if callee != nil && len(bindings) > 0 {
+		for i, fv := range callee.FreeVars {
+			if i < len(bindings) {
+				b := bindings[i]
+				b.Typ = fv.Type()
+				freeCells[fv.Name()] = b
+			}
+		}
+	}
 	w := fx.e.W
 	targs := make([]Val, len(args))
 	for i, a := range args {
@@ -254,6 +264,7 @@ func (fx *FX) applyContract(fr *frame, st *State, c *Contract, name string, call
 		env := fx.newEnv(fr, st)
 		env.names = fx.contractNames(c, callee, sig, targs, nil, fnv)
 		env.onlyNames = true
+		env.freeCells = freeCells
 		for j, cl := range c.Requires {
 			g := fx.evalBool(env, cl.Expr)
 			fx.oblige(st, "pre", fmt.Sprintf("call(%s).requires#%d%s", name, j+1, lbl(cl)), cl.Text, g, pos, propsOr(cl.Props, c.Props))
@@ -276,7 +287,13 @@ func (fx *FX) applyContract(fr *frame, st *State, c *Contract, name string, call
 				logComp(k)
 			}
 			if m == "*" {
-				logComp("*")
+				var keep []string
+				for _, ex := range c.Modifies {
+					if strings.HasPrefix(ex, "-") {
+						keep = append(keep, fx.expandCompName(ex[1:])...)
+					}
+				}
+				logStar(keep)
 			}
 			for _, g := range fx.e.CS.Ghosts {
 				if g.Name == m {
@@ -299,6 +316,7 @@ func (fx *FX) applyContract(fr *frame, st *State, c *Contract, name string, call
 		env.old = old
 		env.names = fx.contractNames(c, callee, sig, targs, results, fnv)
 		env.onlyNames = true
+		env.freeCells = freeCells
 		for _, cl := range c.Ensures {
 			fx.assume(st.reach, fx.evalBool(env, cl.Expr))
 		}
